@@ -23,7 +23,8 @@ KNOWN_CS = ["0000", "00c6", "00c7", "e011", "e051", "e013", "e053", "e015", "e05
 KNOWN_CT = [1, 2, 3, 4, 5, 6, 20, 64, 65, 66, 67, 68, 80]
 GETTER = {"seths": "geths", "setch": "getch", "setsh": "getsh", "setcert": "getcert", "setske": "getske", "setckee": "getckee",
           "setskp": "getskp", "setcr": "getcr", "setshd": "getshd", "setckp": "getckp", "setcv": "getcv", "setfin": "getfin"}
-TABLED = ("getcert", "getske", "getckee")
+TABLED = ("getcert", "getske", "getckee", "certlist13", "shexts13", "pchexts13")
+CERT_TABLED = ("getcert", "certlist13")
 
 
 def hx(b):
@@ -238,6 +239,179 @@ def codec_crafted(ctx, r, certs, points):
     return out
 
 
+def codec13(ctx, r, model, exe, certs, points):
+    """TLS 1.3 forms (Tls/HsCodec13.v): extension lists of the two hello messages, EncryptedExtensions, CertificateVerify,
+    CertificateRequest, Certificate (+ certificate_list processing), Finished.  Returns getter-wave cases."""
+    thorough = ctx.tier == "thorough"
+    out = []
+    add = lambda l, c: out.append((l, c))
+    u8 = lambda b: bytes([len(b)]) + b
+    u16 = lambda b: len(b).to_bytes(2, "big") + b
+    u24 = lambda b: len(b).to_bytes(3, "big") + b
+    ext = lambda t, d: t.to_bytes(2, "big") + u16(d)
+    rv = lambda: r.choice(["0303", "0303", "0301", "0304", "0101"])
+    scalar = r.bytes(32).hex()
+    spt = core.run_lines(exe, ["mkpoint %s" % scalar], shards=1)[0][0]
+    sv_c, sv_s = ext(43, u8(b"\x03\x04")), ext(43, b"\x03\x04")
+    groups, sigalgs = ext(10, u16(b"\x00\x29")), ext(13, u16(b"\x07\x08"))
+    ks_c = lambda pt: ext(51, u16(b"\x00\x29" + u16(pt)))
+    ks_s = lambda pt: ext(51, b"\x00\x29" + u16(pt))
+
+    def ext_mutations(x, every):
+        res = []
+        b = bytes(x)
+        for k in (1, 2, 3):
+            res.append(b + r.bytes(k)); res.append(b + bytes(k))
+            if len(b) > k:
+                res.append(b[:-k])
+        res.append(b + b); res.append(b""); res.append(b[:2]); res.append(b[:3]); res.append(b[:4])
+        # the length fields of every extension off by one, types changed
+        pos = 0
+        while pos + 4 <= len(b):
+            ln = int.from_bytes(b[pos + 2:pos + 4], "big")
+            for d in (-1, 1, 256):
+                if 0 <= ln + d < 65536:
+                    res.append(b[:pos + 2] + (ln + d).to_bytes(2, "big") + b[pos + 4:])
+            res.append(b[:pos] + r.choice([b"\x00\x2b", b"\x00\x33", b"\x00\x0a", b"\xab\xcd"]) + b[pos + 2:])
+            res.append(b[:pos] + b[pos + 4 + ln:])                       # this extension removed
+            res.append(b[:pos] + ext(0x1234, r.bytes(5)) + b[pos:])      # an unknown one in front of it
+            pos += 4 + ln
+        positions = range(len(b)) if every else [r.below(len(b)) for _ in range(12)] if b else []
+        for i in positions:
+            y = bytearray(b); y[i] ^= 1 << r.below(8); res.append(bytes(y))
+        return res
+
+    # ---- ClientHello extensions: made by the client, processed by the server
+    for pt in points[:3]:
+        for cap in (512, 99, 98, 97, 0):
+            add("chexts13 %s %d" % (pt.hex(), cap), "chexts13:capacity-%s" % ("enough" if cap >= 98 else "short"))
+    for n, pt in enumerate(points[:3 if not thorough else 6]):
+        good = sv_c + groups + sigalgs + ks_c(pt)
+        tail = " %s %d %s *" % (scalar, 512, spt)
+        add("pchexts13 %s%s" % (good.hex(), tail), "pchexts13:valid")
+        for m in ext_mutations(good, every=(n == 0 or thorough)):
+            add("pchexts13 %s%s" % (m.hex() or "-", tail), "pchexts13:malformed")
+        # several versions / several shares / other groups first / share of a wrong length / unknown group
+        for vs in (b"\x03\x04\x03\x03", b"\x03\x03\x03\x04", b"\x03\x03", b"\x03\x04\x03", b"\x03", b"", b"\x03\x04" * 127, b"\x03\x03" * 126 + b"\x03\x04\x03", b"\x09\x09\x03\x04"):
+            add("pchexts13 %s%s" % ((ext(43, u8(vs)) + ks_c(pt)).hex(), tail), "pchexts13:versions")
+        for shares in (b"\x00\x17" + u16(r.bytes(65)) + b"\x00\x29" + u16(pt), b"\x00\x29" + u16(pt) + b"\x00\x17" + u16(r.bytes(65)), b"\x00\x17" + u16(r.bytes(65)),
+                       b"\x00\x29" + u16(pt[:64]), b"\x00\x29" + u16(pt + b"\0"), b"\x00\x29" + u16(b""), b"\x12\x34" + u16(pt), b"", b"\x00\x29" + u16(b"\x04" + bytes(64))):
+            add("pchexts13 %s%s" % ((sv_c + ext(51, u16(shares))).hex(), tail), "pchexts13:shares")
+        # capacity: every answer must fit into what the caller gave (tls13_do_accept: 512 bytes)
+        for k, cap in ((1, 79), (1, 78), (1, 73), (6, 512), (7, 512), (8, 512), (20, 512), (3, 200), (2, 152), (2, 151)):
+            add("pchexts13 %s %s %d %s *" % ((sv_c + ks_c(pt) * k).hex(), scalar, cap, spt), "pchexts13:over-capacity")
+        for k, cap in ((85, 512), (86, 512), (100, 512), (3, 17), (3, 18)):
+            add("pchexts13 %s %s %d %s *" % ((sv_c * k + ks_c(pt)).hex(), scalar, cap, spt), "pchexts13:capacity-versions")
+    # ---- ServerHello extensions as the client reads them
+    for n, pt in enumerate(points[:3 if not thorough else 6]):
+        good = sv_s + ks_s(pt)
+        add("shexts13 %s *" % good.hex(), "shexts13:valid")
+        add("shexts13 %s *" % (ks_s(pt) + sv_s).hex(), "shexts13:valid")
+        add("shexts13 %s *" % sv_s.hex(), "shexts13:valid")
+        add("shexts13 %s *" % (good + ext(0x1234, r.bytes(9))).hex(), "shexts13:valid")
+        for m in ext_mutations(good, every=(n == 0 or thorough)):
+            add("shexts13 %s *" % (m.hex() or "-"), "shexts13:malformed")
+        for bad in (ext(43, b"\x03\x03") + ks_s(pt), ext(43, b"\x03\x04\x00") + ks_s(pt), ext(43, b"\x03") + ks_s(pt), sv_s + ext(51, b"\x00\x17" + u16(pt)), sv_s + ext(51, b"\x00\x29" + u16(pt[:64])),
+                    sv_s + ext(51, b"\x00\x29" + u16(pt) + b"\0"), sv_s + ext(51, b"\x00\x29" + u16(b"\x04" + bytes(64))), sv_s + ext(51, b"")):
+            add("shexts13 %s *" % bad.hex(), "shexts13:malformed")
+    # ---- name tables transcribed into the model against the library's
+    for w in ("ext", "sig", "pf", "curve", "proto", "cs", "hs", "ct"):
+        add("nametab %s" % w, "nametab:%s" % w)
+    # ---- TLS 1.2 extension processing (src/tls_ext.c): ec_point_formats, supported_groups, signature_algorithms
+    pf = lambda fs: ext(11, u8(bytes(fs)))
+    gr = lambda gs: ext(10, u16(b"".join(g.to_bytes(2, "big") for g in gs)))
+    sa = lambda as_: ext(13, u16(b"".join(a.to_bytes(2, "big") for a in as_)))
+    good12 = pf([0]) + gr([41]) + sa([0x0708])
+    for cap in (512, 64, 22, 30, 29, 24, 23, 16, 15, 14, 8, 7, 0):
+        add("pchexts12 %s %d" % (good12.hex(), cap), "pchexts12:capacity")
+        add("pchexts12 %s %d" % ((good12 * 3).hex(), cap), "pchexts12:capacity")
+    add("pchexts12 %s 512" % (sa([0x0708]) * 63).hex(), "pchexts12:capacity"); add("pchexts12 %s 512" % (sa([0x0708]) * 64).hex(), "pchexts12:capacity")
+    add("pchexts12 %s 512" % (pf([0]) * 86).hex(), "pchexts12:capacity")
+    for x in (pf([0, 1, 2]), pf([1, 0]), pf([1, 2]), pf([0, 3]), pf([3, 0]), pf([]), ext(11, b""), ext(11, u8(b"\0") + b"\0"), ext(11, b"\x02\x00"),
+              gr([41]), gr([23, 41]), gr([41, 23]), gr([23]), gr([41, 0x9999]), gr([0x9999, 41]), gr([]), ext(10, u16(b"\x00\x29\x00")), ext(10, u16(b"\x00\x29") + b"\0"), ext(10, b""),
+              sa([0x0708]), sa([0x0403, 0x0708]), sa([0x0708, 0x0403]), sa([0x0403]), sa([0x9999, 0x0708]), sa([0x0708, 0x9999]), sa([]), ext(13, u16(b"\x07\x08\x00")), ext(13, u16(b"\x00\x07\x08")),
+              ext(13, u16(b"\x07\x08") + b"\0"), ext(13, b""), ext(0, u16(b"abc")), ext(43, b"\x03\x04"), ext(0x1234, b""), ext(65281, b"\0"), ext(40, b"")):
+        add("pchexts12 %s 512" % x.hex(), "pchexts12:one-extension")
+        add("pchexts12 %s 512" % (good12 + x).hex(), "pchexts12:after-valid")
+    for m in ext_mutations(good12, every=True):
+        add("pchexts12 %s 512" % (m.hex() or "-"), "pchexts12:malformed")
+        add("shexts12 %s" % (m.hex() or "-"), "shexts12:malformed")
+    add("shexts12 %s" % good12.hex(), "shexts12:valid"); add("shexts12 -", "shexts12:valid")
+    for x in (pf([0]), gr([41]), sa([0x0708]), pf([0, 0]), pf([1]), pf([]), gr([41, 41]), gr([23]), gr([]), sa([0x0708, 0x0708]), sa([0x0403]), sa([]), ext(11, b""), ext(10, b""), ext(13, b""),
+              ext(43, b"\x03\x04"), ext(0x1234, b""), pf([0]) + pf([0]), ext(11, u8(b"\0") + b"\0"), ext(10, u16(b"\x00\x29") + b"\0")):
+        add("shexts12 %s" % x.hex(), "shexts12:one-extension")
+    # ---- setters, then getters on what the model says they produce, and on the malformed neighbours
+    sets = []
+    sa = lambda l, c: sets.append((l, c))   # (rebinds sa: the extension helper above is not used below)
+    for v in ("0303", "0304", "0101", "0000", "1234"):
+        sa("setee13 %s" % v, "setee13")
+    for i in range(12 if not thorough else 60):
+        sg = r.bytes(r.choice([0, 1, 70, 71, 72, 73, 300]))
+        sa("setcv13 %s %s %s" % (rv(), r.choice(["0708", "0403", "0000", "ffff"]), hx(sg)), "setcv13:%s" % ("sig-empty" if not sg else "sig"))
+        sa("setcr13 %s %s %s" % (rv(), hn(r.bytes(r.choice([0, 0, 1, 32, 255]))), hn(r.choice([sigalgs, sigalgs + ext(47, u16(u16(b"abc"))), b"", r.bytes(7)]))), "setcr13")
+        sa("setfin13 %s %s" % (rv(), r.choice([".", "-", r.bytes(32).hex(), r.bytes(48).hex(), r.bytes(12).hex(), r.bytes(33).hex(), r.bytes(1).hex()])), "setfin13")
+        k = r.choice([1, 1, 2, 3])
+        sa("setcert13 %s %s %s *" % (rv(), hn(r.bytes(r.choice([0, 0, 4, 255]))), ",".join(r.choice(certs).hex() for _ in range(k))), "setcert13:n=%d" % k)
+    sa("setcv13 0000 0708 3000", "setcv13:unknown-record-version"); sa("setcr13 1234 . 000d00020708", "setcr13:unknown-record-version")
+    sa("setfin13 0404 %s" % r.bytes(32).hex(), "setfin13:unknown-record-version"); sa("setcert13 0000 . %s *" % certs[0].hex(), "setcert13:unknown-record-version")
+    sa("setcert13 0303 . . *", "setcert13:empty")
+    sa("setcert13 0303 . %s *" % ",".join([certs[0].hex(), r.bytes(40).hex()]), "setcert13:garbage-after-first")
+    sa("setcert13 0303 . %s *" % ",".join([r.bytes(40).hex(), certs[0].hex()]), "setcert13:garbage-first")
+    big = []
+    while sum(5 + len(c) for c in big) + 4 <= 16380 + 500:
+        big.append(r.choice(certs))
+    for cut in (0, 1, 2):
+        ch = big[:len(big) - cut]
+        sa("setcert13 0303 . %s *" % ",".join(c.hex() for c in ch), "setcert13:total-%s" % ("over-max" if sum(5 + len(c) for c in ch) + 4 > 16380 else "below-max"))
+    okcerts = ",".join(c.hex() for c in certs)
+    sets = [((l[:-1] + okcerts) if l.startswith("setcert13 ") else l, c) for (l, c) in sets]
+    mo, _ = core.run_lines(model, [l for l, _ in sets])
+    G13 = {"setee13": "getee13", "setcv13": "getcv13", "setcr13": "getcr13", "setcert13": "getcert13", "setfin13": "getfin13"}
+    nper = {}
+    for (l, c), o in zip(sets, mo):
+        out.append((l, c))
+        if o.startswith(("ERR", "UNFINISHED", "MODEL")):
+            continue
+        op = l.split(" ", 1)[0]; g = G13[op]; rec = bytes.fromhex(o)
+        add("%s %s" % (g, o), "%s:valid" % g)
+        if len(rec) <= 700 or r.chance(1, 4):
+            nper[g] = nper.get(g, 0) + 1
+            for (m, cls) in codec_mutations(ctx, r, op, rec, every=(nper[g] <= (6 if not thorough else 40))):
+                add("%s %s" % (g, m.hex()), "%s:%s" % (g, "malformed" if g == "getcv13" else cls))
+        g2 = r.choice(sorted(G13.values()))
+        add("%s %s" % (g2, o), "%s:%s" % (g2, "malformed" if g2 == "getcv13" else "other-message"))
+        if op == "setcert13":
+            body = rec[9:]; cl = body[0]; lst = body[1 + cl + 3:]
+            add("certlist13 %s *" % (lst.hex() or "-"), "certlist13:valid")
+    # ---- certificate_list processing: entries with extensions, empty entries, total size against the callers' 2048 bytes
+    c0 = certs[0]
+    ent = lambda c, ex=b"": u24(c) + u16(ex)
+    for lst in (b"", ent(c0), ent(c0) + ent(c0), ent(c0, ext(5, b"")), ent(c0, ext(18, r.bytes(4))), ent(c0, ext(0x1234, b"")), ent(c0, ext(0, u16(b"abc"))), ent(c0, ext(10, b"")), ent(c0, ext(43, b"\x03\x04")), ent(c0, ext(51, b"")), ent(c0) + ent(c0, ext(13, b"")), ent(c0, b"\0"), ent(b""), ent(c0) + ent(b""), ent(c0 + b"\0"), ent(c0[:-1]),
+                ent(c0)[:-1], ent(c0)[:-2], ent(c0) + b"\0", ent(c0) + b"\0\0\0", u24(c0)):
+        add("certlist13 %s *" % (lst.hex() or "-"), "certlist13:crafted")
+    chain = b""; total = 0
+    while total + len(certs[1]) <= 2048 + 700:
+        chain += ent(certs[1]); total += len(certs[1])
+        add("certlist13 %s *" % chain.hex(), "certlist13:total-%s" % ("within-2048" if total <= 2048 else "over-2048"))
+    # ---- crafted getter inputs
+    def rec13(t, body, ver="0303"):
+        return bytes([22]) + bytes.fromhex(ver) + (4 + len(body)).to_bytes(2, "big") + bytes([t]) + len(body).to_bytes(3, "big") + body
+    for n in (0, 1, 31, 32, 33, 47, 48, 49, 64):
+        add("getfin13 " + rec13(20, r.bytes(n)).hex(), "getfin13:crafted:len-%s" % ("ok" if n in (32, 48) else "other"))
+    for body in (b"", b"\x07", b"\x07\x08", b"\x07\x08\x00", b"\x07\x08\x00\x00", b"\x07\x08\x00\x01", b"\x07\x08\x00\x02\x30", b"\x07\x08" + u16(r.bytes(70)) + b"\0", b"\x07\x08\xff\xff" + r.bytes(20)):
+        add("getcv13 " + rec13(15, body).hex(), "getcv13:malformed")
+    for body in (b"\x07\x08" + u16(r.bytes(70)), b"\x04\x03" + u16(r.bytes(8)), b"\x07\x08" + u16(r.bytes(300))):
+        add("getcv13 " + rec13(15, body).hex(), "getcv13:valid")
+    for t in (8, 11, 1, 20):
+        for body in (u16(b""), u16(groups), u16(groups) + b"\0", b"", b"\0", b"\x00\x09" + groups[:8]):
+            add("getee13 " + rec13(t, body).hex(), "getee13:crafted:type-%s" % ("ee" if t == 8 else "other"))
+    for body in (u8(b"") + u16(sigalgs), u8(b"ctx") + u16(sigalgs), u8(b"") + u16(b""), u8(b"") + u16(sigalgs) + b"\0", u8(b""), b"", u8(b"") + b"\x00"):
+        add("getcr13 " + rec13(13, body).hex(), "getcr13:crafted")
+    for body in (u8(b"") + u24(ent(c0)), u8(b"cx") + u24(ent(c0)), u8(b"") + u24(b""), u8(b"") + u24(ent(c0)) + b"\0", u8(b"") + u24(ent(c0))[:-1], u8(b""), b""):
+        add("getcert13 " + rec13(11, body).hex(), "getcert13:crafted")
+    return out
+
+
 def codec(ctx):
     """differential run of the handshake message layer (Tls/HsCodec.v vs src/tls.c, tls12.c, tlcp.c)"""
     import os
@@ -288,6 +462,7 @@ def codec(ctx):
                 rec = bytes([22, 3, 3]) + n.to_bytes(2, "big") + hdr + body[4:]
                 getc.append(("%s %s%s" % (g, rec.hex(), " *" if g in TABLED else ""), "%s:garbage-framed" % g))
     getc += codec_crafted(ctx, r, certs, points)
+    getc += codec13(ctx, r, model, exe, certs, points)
     # the byte strings cert_ok / point_ok will be asked about: first pass with "*", then ask the library
     tabled = [i for i, (l, c) in enumerate(getc) if l.split(" ", 1)[0] in TABLED]
     p1, _ = core.run_lines(model, [getc[i][0] for i in tabled])
@@ -295,14 +470,14 @@ def codec(ctx):
     for i, o in zip(tabled, p1):
         ex = o.rsplit(" EXAMINED ", 1)[1] if " EXAMINED " in o else "."
         for e in ([] if ex == "." else ex.split(",")):
-            ask[(getc[i][0].split(" ", 1)[0] == "getcert", e)] = None
+            ask[(getc[i][0].split(" ", 1)[0] in CERT_TABLED, e)] = None
     keys = sorted(ask)
     qouts, _ = core.run_lines(exe, [("certok %s" if k[0] else "pointok %s") % (k[1] if k[1] != "-" else "-") for k in keys]) if keys else ([], "")
     for k, o in zip(keys, qouts):
         ask[k] = (o == "1")
     for i, o in zip(tabled, p1):
         ex = o.rsplit(" EXAMINED ", 1)[1] if " EXAMINED " in o else "."
-        iscert = getc[i][0].split(" ", 1)[0] == "getcert"
+        iscert = getc[i][0].split(" ", 1)[0] in CERT_TABLED
         ok = [e for e in ([] if ex == "." else ex.split(",")) if ask.get((iscert, e))]
         getc[i] = (getc[i][0][:-1] + (",".join(ok) if ok else "."), getc[i][1])
     # garbage handed to set_certificate: the model must be told that it is not a certificate
@@ -455,11 +630,11 @@ def finish(ctx):
         "theorem 'transcripts equal' carries explicit premises: the Finished function and SM3 do not collide on the two compared inputs, and the last Finished arrives as sent",
         "record header bytes of plaintext handshake records are not authenticated by the protocols: faults are applied to payload bytes (offset >= 5) and to whole records",
         "duplicate of the last handshake record of a direction (client Finished / server Finished): its receiver has left the handshake before the copy arrives, so both sides complete (true of every TLS implementation); the check then requires that the copy is not accepted as application data",
-        "handshake message layer (C10_codec_* theorems): Tls/HsCodec.v is an Impl model, written after the control flow of tls_record_set_handshake / tls_record_get_handshake and of the set_/get_ pairs for ClientHello, ServerHello, Certificate, ServerKeyExchange (ECDHE, TLCP), CertificateRequest, ServerHelloDone, ClientKeyExchange (ECDHE, PKE), CertificateVerify, Finished; it is tied to the C code by the differential run of this check (same inputs to the extracted model and to the library functions, outputs compared line by line, plus: no C output may leave the declared capacity TLS_MAX_RECORD_SIZE / the caller's buffers). TLS 1.3 forms (encrypted extensions, tls13 certificate / certificate verify) are not modelled",
+        "handshake message layer (C10_codec_* theorems): Tls/HsCodec.v is an Impl model, written after the control flow of tls_record_set_handshake / tls_record_get_handshake and of the set_/get_ pairs for ClientHello, ServerHello, Certificate, ServerKeyExchange (ECDHE, TLCP), CertificateRequest, ServerHelloDone, ClientKeyExchange (ECDHE, PKE), CertificateVerify, Finished; it is tied to the C code by the differential run of this check (same inputs to the extracted model and to the library functions, outputs compared line by line, plus: no C output may leave the declared capacity TLS_MAX_RECORD_SIZE / the caller's buffers). TLS 1.3 forms: Tls/HsCodec13.v (extension lists of ClientHello / ServerHello: supported_versions, supported_groups, signature_algorithms, key_share as tls13_client_hello_exts_set writes and tls13_process_client_hello_exts / tls13_server_hello_extensions_get read them; EncryptedExtensions; Certificate with per-entry extensions and tls13_process_certificate_list; CertificateVerify; CertificateRequest; Finished) and the TLS 1.2 extension processing of src/tls_ext.c (tls_process_client_hello_exts / tls_process_server_hello_exts with ec_point_formats, supported_groups, signature_algorithms), same differential run, C10_codec13_* theorems. Three of these functions are modelled as repaired (f48e1aa, 5c74d17): a regression is a violation (keys codec:shexts13:malformed, codec:getcv13:malformed, codec:pchexts13:over-capacity)",
         "theorem hypotheses of the codec statements: rec_wf (the buffer holds exactly 5 + declared-length bytes: what tls_record_recv establishes) and bytes_ok (every element < 256); 'random' has 32 bytes (C array type). Whether 65 octets are a curve point (point_ok: sm2_z256_point_from_octets, C12) and whether a byte string is one DER certificate (cert_ok: x509_cert_from_der, C15) are INPUTS of the model, answered by the library itself during the differential run (harness ops pointok / certok)",
         "C10_codec_both_done_same_messages_partial / C10_codec_altered_handshake_record_detected_partial keep the premises of C10_both_done_same_transcript_partial (no collision of the Finished function and of SM3 on the one compared pair, last Finished delivered as sent, Finished framing) and add: each endpoint's transcript is the concatenation of record+5 of the handshake records it made or accepted, in order (the sm3_update calls of the drivers; observed by the C08 observer which recomputes both Finished values from the captured messages)",
         "lax getter rules are modelled as they are and recorded as Examples in Tls/HsCodecProofs.v, not asserted away: ClientHello compression methods unconstrained and empty cipher list accepted; bytes after the certificate list ignored; CertificateVerify signature length not bounded by the getter; setters ignoring the status of tls_record_set_handshake (return 1, no record) ; set_certificate_request accepting 256 types (length byte wraps). Patches: work/patches_tls/",
     ]
     return ctx.finish(level="proof",
                       rule="per protocol x {server-auth, mutual-auth}: single-bit flips at every 3rd payload byte of every handshake record (every byte in the thorough tier; every byte of ClientHello, ServerHello and of the client-authentication messages in every tier and every authentication mode) plus all handshake type/length fields and the last byte; per record drop, duplicate, swap-with-next, inject, truncate (+close / +fixed length). cell = (protocol, auth mode, fault kind, region, outcome class). Codec part: per set_/get_ function, structured random admissible fields plus boundary lengths (0, 1, max, max+1), every valid record re-read by its getter and by another message's getter, malformed neighbours of valid records (record type / version flips, handshake type, 24-bit length +-1, truncation and trailing byte with one or both outer lengths adjusted, body removed, inserted / deleted / flipped body bytes, ill-framed buffers) and random bodies under a valid record header; cell = (op, variant class)",
-                      trusted=core.TRUSTED_COMMON + ["proxy thread and fault injection of props/C08/tls_peer.h", "Coq files: Tls/Handshake.v HandshakeProofs.v, Tls/KeySched.v, Tls/HsCodec.v HsCodecProofs.v", "codec harness props/C10/hscodec_harness.c and OCaml driver props/C10/driver.ml (argument parsing, printing)", "name tables of src/tls_trace.c (known protocol / cipher suite / handshake type / certificate type / curve values) transcribed into Tls/HsCodec.v"])
+                      trusted=core.TRUSTED_COMMON + ["proxy thread and fault injection of props/C08/tls_peer.h", "Coq files: Tls/Handshake.v HandshakeProofs.v, Tls/KeySched.v, Tls/HsCodec.v HsCodecProofs.v HsCodec13.v HsCodec13Proofs.v", "codec harness props/C10/hscodec_harness.c and OCaml driver props/C10/driver.ml (argument parsing, printing)", "name tables of src/tls_trace.c (protocol / cipher suite / handshake type / certificate type / curve / extension / signature scheme / point format values) transcribed into Tls/HsCodec.v and HsCodec13.v: compared with the library's tables over 0..65535 at every run (op nametab)"])
